@@ -398,12 +398,17 @@ func workerMissSignal(c *Ctx) {
 	n := 0
 	b = NewBase(Hooks{
 		PreAssign: func(x *Exec, as *ast.AssignStmt, s St) St {
-			for _, l := range as.Lhs {
-				if id, ok := l.(*ast.Ident); ok && id.Name == "req" {
+			// a new request is taken from the queue: the loop variable of `for req := range queue`
+			if len(as.Rhs) == 1 {
+				if u, ok := as.Rhs[0].(*ast.UnaryExpr); ok && u.Op == token.RANGE {
 					s = s.Set("cleared", "").Set("notified", "").Set("cancelled", "").Set("cbnil", "")
 				}
-				if st, ok := ast.Unparen(l).(*ast.StarExpr); ok && strings.Contains(exprStr(st.X), ".digest") && len(as.Rhs) == 1 && exprStr(as.Rhs[0]) == "nil" {
-					s = s.Set("cleared", "1")
+			}
+			for _, l := range as.Lhs {
+				if st, ok := ast.Unparen(l).(*ast.StarExpr); ok && len(as.Rhs) == 1 && isNilIdent(x.Fn.Info, as.Rhs[0]) {
+					if t := x.Fn.Info.TypeOf(st.X); t != nil && strings.HasPrefix(t.String(), "**") && strings.HasSuffix(t.String(), ".Digest") {
+						s = s.Set("cleared", "1")
+					}
 				}
 			}
 			return s
@@ -434,7 +439,7 @@ func workerMissSignal(c *Ctx) {
 			if sel.Sel.Name == "onProxyMiss" {
 				return []St{s.Set("notified", "1")}
 			}
-			if sel.Sel.Name == "Done" && strings.HasSuffix(exprStr(sel.X), ".wg") {
+			if fullCalleeName(x.Fn.Info, call) == "sync.(WaitGroup).Done" {
 				n++
 				cbNil := s.Get("cbnil") == "1"
 				ok := s.Get("cleared") == "1" || s.Get("notified") == "1" || s.Get("cancelled") == "1" || cbNil
@@ -445,6 +450,7 @@ func workerMissSignal(c *Ctx) {
 			return []St{s}
 		},
 	})
+	b.InlineOwnHelpers()
 	x := NewExec(c.P.FlowOf(fi), b)
 	x.Run(newSt())
 	R.Check(n >= 2, "R06d", c.Cfg+"containsWorker:done-sites", "", "the wg.Done() sites of the worker were analysed", fmt.Sprintf("%d found", n))
